@@ -10,16 +10,24 @@ vf.use_repo()
 from ak import conn_http  # noqa: E402
 from vf.core import Inconclusive, sig_of  # noqa: E402
 
+# building the real urllib opener loads the system certificates (35 ms per connection); the checks
+# replace the opener by a recording fake anyway, so its construction is stubbed when possible
+_impl = getattr(conn_http, "_HttpConnImpl", None)
+if _impl is not None and hasattr(_impl, "_make_opener"):
+    _impl._make_opener = staticmethod(lambda *args, **kwargs: None)
+
 ID = "C16"
 LEVEL = "exploration"
 RULE = ("workload 1 (stress): rounds of 4-8 threads x 40-60 requests over one base connection and connections "
-        "derived from it (BAuthConn, path-prefix HttpConn, a connection derived from a derived one), every 10th "
+        "derived from it (BAuthConn, path-prefix HttpConn, a connection derived from a derived one, a connection "
+        "whose adapter supplies the caller's own ids), every 10th "
         "request carrying its own X-Request-ID, three in ten re-using a headers dict the caller keeps; switch interval 1 microsecond and sys.monitoring LINE events "
         "local to _generate_request_id and do_request yielding the GIL (sleep(0)) with probability 1/2. "
         "Workload 2 (bounded schedule enumeration, pre-emption bound 1): for EVERY bytecode offset of "
         "_generate_request_id thread A is held at that offset by an INSTRUCTION-event callback until thread B's "
         "request (through the same or a derived connection) completed or 50 ms passed (B blocked on the lock); "
-        "the wait only steers the schedule, it is never a verdict. Workload 3: 10 400 (thorough 101 000) sequential requests over the "
+        "the wait only steers the schedule, it is never a verdict. Workload 4: 1500 (thorough 12000) fresh connections per shard whose first ids are requested by 2-3 threads "
+        "at once under line-level yield injection. Workload 3: 10 400 (thorough 101 000) sequential requests over the "
         "base and derived connections (more than a four-digit field can count). A fake opener records every urllib Request "
         "under its own lock. Oracle (sequential counter model): generated ids pairwise distinct, their sequence "
         "numbers exactly 0..N-1, caller-supplied ids sent unchanged exactly once and not counted. Non-trivial = "
@@ -88,7 +96,7 @@ def request_id_of(request):
     return None
 
 
-def judge_history(ctx, reqs, n_own_expected, own_expected, case, tids=None):
+def judge_history(ctx, reqs, n_own_expected, own_expected, case, tids=None, adapter_ids=None):
     """the sequential counter model over a recorded history"""
     ids = [(tid, request_id_of(r)) for tid, r in reqs]
     ctx.count("requests_observed", len(ids))
@@ -98,6 +106,7 @@ def judge_history(ctx, reqs, n_own_expected, own_expected, case, tids=None):
         return None
     own = [x for _, x in ids if x.startswith("own-")]
     gen = [(tid, x) for tid, x in ids if not x.startswith("own-")]
+    own_expected = list(own_expected) + list(adapter_ids or [])
     if sorted(own) != sorted(own_expected):
         ctx.violation("caller-supplied-id-not-sent-unchanged-exactly-once",
                       {"sent": len(own), "expected": len(own_expected)}, case)
@@ -123,6 +132,22 @@ def judge_history(ctx, reqs, n_own_expected, own_expected, case, tids=None):
     return order
 
 
+class IdAdapter(conn_http.RequestAdapter):
+    """the caller supplies its own ids through an adapter of a derived connection"""
+    _counter = [0]
+    _lock = threading.Lock()
+
+    def __init__(self, issued):
+        self.issued = issued
+
+    def process_req_args(self, req_args):
+        with self._lock:
+            self._counter[0] += 1
+            rid = "own-adapter-%d" % self._counter[0]
+            self.issued.append(rid)
+        req_args.headers['X-Request-ID'] = rid
+
+
 def mk_conns():
     base = conn_http.HttpConn("http://h")
     op = Opener()
@@ -130,7 +155,9 @@ def mk_conns():
     d1 = conn_http.BAuthConn(base, "u", "p")
     d2 = conn_http.HttpConn(base, adapters=conn_http.RequestAdapterAddPathPrefix("/x"))
     d3 = conn_http.HttpConn(d2, adapters=conn_http.RequestAdapterAddPathPrefix("/y"))
-    return op, [base, d1, d2, d3]
+    op.adapter_ids = []
+    d4 = conn_http.HttpConn(base, adapters=[IdAdapter(op.adapter_ids)])
+    return op, [base, d1, d2, d3, d4]
 
 
 def codes():
@@ -140,6 +167,62 @@ def codes():
     if gen is None or do is None:
         raise Inconclusive("_HttpConnImpl._generate_request_id / do_request not found: nothing to instrument")
     return gen, do
+
+
+def first_requests_race(ctx, seed, rounds):
+    """many fresh connections whose very first ids are requested by 2-3 threads at once, with
+    yields injected at every line of the id generator (lazily created state is raced here)"""
+    gen_code, do_code = codes()
+    mon = sys.monitoring
+    inj_rng = random.Random(seed)
+
+    def on_line(code, line):
+        if inj_rng.random() < 0.6:
+            time.sleep(0)
+
+    mon.use_tool_id(TOOL, "vf-c16")
+    mon.register_callback(TOOL, mon.events.LINE, on_line)
+    mon.set_local_events(TOOL, gen_code, mon.events.LINE)
+    old_si = sys.getswitchinterval()
+    sys.setswitchinterval(1e-6)
+    try:
+        for r in range(rounds):
+            op, conns = mk_conns()
+            n_threads = 2 + r % 2
+            start = threading.Barrier(n_threads)
+            errors = []
+
+            def worker(i, conns=conns, start=start, errors=errors):
+                try:
+                    start.wait()
+                    conns[i % 4].get("/first")
+                    conns[(i + 1) % 4].get("/second")
+                except Exception as err:
+                    errors.append(repr(err))
+
+            threads = [threading.Thread(target=worker, args=(i,)) for i in range(n_threads)]
+            for t in threads:
+                t.start()
+            for t in threads:
+                t.join(30)
+            case = {"workload": "first-requests", "seed": seed, "rounds": rounds}
+            if errors:
+                ctx.violation("request-raises-under-concurrency", {"errors": errors[:3]}, case)
+                return
+            ctx.count("fresh_connections_raced")
+            if judge_history(ctx, op.reqs, None, [], case) is None:
+                return
+            if ctx.mech_counts.get("duplicate-request-id") or ctx.mech_counts.get("sequence-numbers-with-gaps-or-repeats"):
+                return
+    finally:
+        sys.setswitchinterval(old_si)
+        mon.set_local_events(TOOL, gen_code, 0)
+        mon.register_callback(TOOL, mon.events.LINE, None)
+        mon.free_tool_id(TOOL)
+
+
+def uses_id_adapter(thread_index):
+    return thread_index % 5 == 4      # the fifth connection of mk_conns()
 
 
 def stress_round(ctx, seed, interleavings, case_no):
@@ -174,7 +257,7 @@ def stress_round(ctx, seed, interleavings, case_no):
             start.wait()
             for k in range(n_req):
                 verb = (c.get, c.post, c.put)[k % 3]
-                if k % 10 == 3:
+                if k % 10 == 3 and not uses_id_adapter(i):
                     verb("/p", headers={'X-Request-ID': f"own-{i}-{k}"})
                 elif k % 10 in (5, 6, 8):
                     verb("/p", headers=reused)
@@ -184,7 +267,8 @@ def stress_round(ctx, seed, interleavings, case_no):
             errors.append(repr(err))
 
     for i in range(n_threads):
-        own_expected.extend(f"own-{i}-{k}" for k in range(n_req) if k % 10 == 3)
+        if not uses_id_adapter(i):
+            own_expected.extend(f"own-{i}-{k}" for k in range(n_req) if k % 10 == 3)
     threads = [threading.Thread(target=worker, args=(i,)) for i in range(n_threads)]
     try:
         for t in threads:
@@ -205,7 +289,7 @@ def stress_round(ctx, seed, interleavings, case_no):
         ctx.violation("request-raises-under-concurrency", {"errors": errors[:3]}, case)
         return
     ctx.count("yields_injected", injected[0])
-    order = judge_history(ctx, op.reqs, None, own_expected, case)
+    order = judge_history(ctx, op.reqs, None, own_expected, case, adapter_ids=op.adapter_ids)
     if order is not None:
         tid_index = {}
         sig = sig_of([tid_index.setdefault(t, len(tid_index)) for t in order])
@@ -227,9 +311,11 @@ def long_run(ctx, n_requests):
     try:
         for k in range(n_requests):
             c = conns[k % len(conns)]
-            if k % 1000 == 7:
+            if k % 1000 == 7 and k % len(conns) != 4:
                 own.append(f"own-long-{k}")
                 c.get("/l", headers={'X-Request-ID': own[-1]})
+            elif k % 1000 == 7:
+                c.get("/l")
             else:
                 c.get("/l")
     except Exception as err:
@@ -237,7 +323,7 @@ def long_run(ctx, n_requests):
                       {"workload": "long", "requests": n_requests})
         return
     ctx.count("long_run_requests", n_requests)
-    judge_history(ctx, op.reqs, None, own, {"workload": "long", "requests": n_requests})
+    judge_history(ctx, op.reqs, None, own, {"workload": "long", "requests": n_requests}, adapter_ids=op.adapter_ids)
 
 
 def offset_scenario(ctx, off, variant):
@@ -306,7 +392,7 @@ def offset_scenario(ctx, off, variant):
     if state['b_in_gap']:
         ctx.count("scenarios_where_B_ran_inside_gap")
         ctx.nontrivial(f"offset:{off}:{variant}")
-    judge_history(ctx, op.reqs, None, ["own-a"], case)
+    judge_history(ctx, op.reqs, None, ["own-a"], case, adapter_ids=op.adapter_ids)
 
 
 def run_shard(ctx):
@@ -320,6 +406,8 @@ def run_shard(ctx):
     if ctx.shard == 0:
         ctx.evaluated()
         long_run(ctx, 10400 if ctx.tier == "quick" else 101000)
+    ctx.evaluated()
+    first_requests_race(ctx, hash((ctx.seed, ctx.shard, 77)) & 0xffffffff, 1500 if ctx.tier == "quick" else 12000)
     variants = ["same-connection", "derived", "derived-of-derived"]
     for sweep in range(int(ctx.params.get("sweeps", 1))):
         variant = variants[(ctx.shard + sweep) % len(variants)]
@@ -332,7 +420,9 @@ def run_shard(ctx):
 
 def replay(ctx, case):
     ctx.evaluated()
-    if case["workload"] == "long":
+    if case["workload"] == "first-requests":
+        first_requests_race(ctx, case["seed"], case["rounds"])
+    elif case["workload"] == "long":
         long_run(ctx, case["requests"])
     elif case["workload"] == "stress":
         for k in range(5):
